@@ -29,9 +29,10 @@ func init() {
 			"sizes are measured with the library's own Message.totalSize (exported under the verif tag) and, independently, as key+value+header bytes (a lower bound that must also respect BatchBytes)",
 			"flush bounds are wall-clock (10 s against configured timeouts of at most 50 ms) and a miss is only reported after a confirmation run on an idle process",
 		},
-		Shards:      16,
-		CaseTimeout: 120 * time.Second,
-		Run:         runC08,
+		Shards:          16,
+		CaseTimeout:     40 * time.Second,
+		HangIsViolation: true,
+		Run:             runC08,
 	})
 }
 
